@@ -181,7 +181,11 @@ static std::string step(const std::string& line) {
     return s ? std::to_string(s->section_id()) : std::string("none");
   }
   if (w[0] == "jitadd") {
-    JitRuntime rt;
+    // the allocator pre-fills its memory with a non-zero pattern, so that the zero fill of virtual tails is observable
+    JitAllocator::CreateParams params;
+    params.options = JitAllocatorOptions::kFillUnusedMemory;
+    params.fill_pattern = 0xA7A7A7A7u;
+    JitRuntime rt(&params);
     void* fn = nullptr;
     Error e = rt.add(&fn, &c);
     if (e != Error::kOk) return err_name(e);
